@@ -35,6 +35,15 @@ def chunkings(rng, stream):
     style = rng.randrange(6)
     if style == 0 or n == 0:
         return [stream]
+    if n > 1500 and style in (1, 3):
+        # long streams: byte-wise delivery only around the frame boundaries, larger reads in between (the executable model
+        # appends chunk by chunk, which is quadratic in the number of chunks)
+        out, p = [], 0
+        while p < n:
+            k = rng.randint(0, 9) if (p < 40 or n - p < 40) else rng.choice([1, 7, 512, 4096, 4097])
+            out.append(stream[p:p + k])
+            p += k
+        return out
     if style == 1:
         return [stream[i:i + 1] for i in range(n)]
     if style == 2:
